@@ -58,6 +58,7 @@ type c05world struct {
 	ticksSeen int
 	wraps     int
 	diverged  map[string]bool
+	nghost    int
 }
 
 func (w *c05world) sure(s *c05sub) bool {
@@ -93,6 +94,45 @@ func (w *c05world) counts() (sure, maybe int) {
 		}
 	}
 	return
+}
+
+// resurrected: after a reload, subscribers the model does not count but the
+// pool answers for (records loaded although released or expired). They are
+// reported through the counters; from here on they are possible holders under
+// their own name, so that a later renewal or re-ask of theirs is understood.
+func (w *c05world) resurrected() int {
+	if !w.caps.Lookup {
+		return 0
+	}
+	n := 0
+	try := func(id int) {
+		if s := w.subs[id]; s != nil && w.maybe(s) {
+			return
+		}
+		v, ok := w.d.Lookup(id)
+		if !ok {
+			return
+		}
+		if _, usable := w.uidx[v]; !usable {
+			return
+		}
+		w.subs[id] = &c05sub{val: v, lo: w.epoch - w.grace - 1, hi: w.epoch, ev: "resurrected"}
+		n++
+	}
+	for id := 0; id < w.nsub; id++ {
+		try(id)
+	}
+	for id := 100; id < w.nextID; id++ {
+		try(id)
+	}
+	return n
+}
+
+// addGhost: a holder the model did not expect (reported when it appeared); it
+// counts as possibly live and occupies val (or an unknown unit).
+func (w *c05world) addGhost(val string) {
+	w.nghost++
+	w.subs[1000+w.nghost] = &c05sub{val: val, lo: w.epoch, hi: w.epoch, unsureRel: true, ev: "ghost"}
 }
 
 func (w *c05world) settle() { w.c.S.Sleep(time.Millisecond) }
@@ -312,6 +352,24 @@ func (w *c05world) drain() {
 func (w *c05world) audit(after string) {
 	c, d := w.c, w.d
 	if w.caps.Lookup {
+		// a fate that a store failure left open is settled by what the pool says
+		// now: it either still answers for the subscriber or it does not
+		for _, id := range w.sortedSubs() {
+			s := w.subs[id]
+			if id >= 1000 || w.sure(s) || !w.maybe(s) {
+				continue
+			}
+			v, ok := d.Lookup(id)
+			if !ok {
+				delete(w.subs, id)
+				continue
+			}
+			if _, usable := w.uidx[v]; usable {
+				s.val = v
+				w.unitEv[v] = "held"
+			}
+			s.unsureRel = false
+		}
 		for _, id := range w.sortedSubs() {
 			s := w.subs[id]
 			if !w.sure(s) {
@@ -322,10 +380,17 @@ func (w *c05world) audit(after string) {
 				c.Fail("reclaimed", fmt.Sprintf("reclaimed/%s/lookup-lost/%s/after-%s", w.label, s.ev, after),
 					"%s: subscriber %d holds %s as a live lease (last renewal at model epoch +%d, now +%d, grace %d; last event %s) but Lookup no longer answers after %s",
 					w.label, id, s.val, s.lo, w.epoch, w.grace, s.ev, after)
+				w.unitEv[s.val] = "lost"
+				if after == "reload" {
+					// displaced while loading the store: the subscriber itself holds
+					// nothing any more; whoever the pool gave the unit to instead is
+					// picked up by resurrected() below
+					delete(w.subs, id)
+					continue
+				}
 				// what became of the unit is open from here on (it may come back, e.g.
 				// from a store record on reload): no further obligations, counts as possible
 				s.unsureRel = true
-				w.unitEv[s.val] = "lost"
 				continue
 			}
 			if v != s.val {
@@ -341,6 +406,10 @@ func (w *c05world) audit(after string) {
 		return
 	}
 	sure, maybe := w.counts()
+	named := 0
+	if after == "reload" && w.caps.ReloadRefreshes {
+		named = w.resurrected()
+	}
 	for _, st := range d.Stats() {
 		// only the first divergence of a counter in a run is causal ("after-<op>");
 		// once it has drifted every later reading is a consequence
@@ -348,7 +417,16 @@ func (w *c05world) audit(after string) {
 			continue
 		}
 		if st.Alloc < sure || st.Alloc > maybe {
-			w.diverged[st.Source] = true
+			if after == "reload" && st.Alloc > maybe && w.caps.ReloadRefreshes {
+				// records that no longer count were loaded as live: from here on they
+				// are holders of unknown units (until their fresh lease runs out), so
+				// that what follows is checked relative to this reported state
+				for k := st.Alloc - maybe - named; k > 0; k-- {
+					w.addGhost(c05Unknown)
+				}
+			} else {
+				w.diverged[st.Source] = true
+			}
 			dir := "high"
 			if st.Alloc < sure {
 				dir = "low"
